@@ -71,3 +71,13 @@ Proof.
   unfold run_op, compile_cfg, compile. rewrite arun_ret_of.
   unfold m_eq_self, locked. rewrite arun_with_lock. reflexivity.
 Qed.
+
+(* c | {}, {} | c, repr(c): the items of the dict storage, sorted -- C02's `store m` *)
+Lemma snapshot_link tb c s m p w :
+  Lk p m -> CR s p ->
+  run_op tb c s (Snapshot w) = (s, RItems (sort_items (M2.store m))).
+Proof.
+  intros [_ _ ES _] R. unfold run_op, compile_cfg, compile. rewrite arun_ret_of.
+  unfold m_snapshot, locked. rewrite arun_with_lock, arun_act. unfold sem at 1. cbn beta iota.
+  unfold CR in R. rewrite (sr_store _ _ _ R), ES. reflexivity.
+Qed.
